@@ -1,5 +1,5 @@
 (* C10 - expressions denoting the same Boolean function get the same verdict. *)
-From Spdx Require Import Props.Shipped Spec.Eval Proofs.Laws.
+From Spdx Require Import Props.Shipped Spec.Eval Proofs.Laws Proofs.Respell.
 Local Open Scope list_scope.
 
 Theorem C10 e1 t1 e2 t2 A : parse T0 e1 = Ok t1 -> parse T0 e2 = Ok t2 -> (forall v, eval v t1 = eval v t2) ->
@@ -31,11 +31,30 @@ Theorem C10_extract e1 t1 e2 t2 l1 l2 : parse T0 e1 = Ok t1 -> parse T0 e2 = Ok 
   extract_licenses T0 e1 = Ok l1 -> extract_licenses T0 e2 = Ok l2 -> forall x, In x l1 <-> In x l2.
 Proof. exact (extract_same_leaves T0 HT0 e1 t1 e2 t2 l1 l2). Qed.
 
+(* extra spaces and redundant parentheses never change the parse (hence neither verdict nor extracted set) *)
+Theorem C10_spaces_parentheses s t sp1 sp2 :
+  Forall (fun ch => is_space ch = true) sp1 -> Forall (fun ch => is_space ch = true) sp2 -> parse T0 s = Ok t ->
+  parse T0 (sp1 ++ s ++ sp2) = Ok t /\ parse T0 ("("%char :: s ++ [")"%char]) = Ok t.
+Proof. intros F1 F2 H. split; [apply (parse_pad T0 HT0); assumption|apply (parse_parens T0 HT0); assumption]. Qed.
+
+(* Satisfies("(E) AND (F)", A) = Satisfies(E, A) and Satisfies(F, A); likewise for OR - on the strings themselves *)
+Theorem C10_decomposition E F tE tF A : parse T0 E = Ok tE -> parse T0 F = Ok tF -> A <> [] -> Forall (entry_ok T0) A ->
+  exists bE bF, satisfies T0 E A = Ok bE /\ satisfies T0 F A = Ok bF /\
+    satisfies T0 ("("%char :: E ++ s2l ") AND (" ++ F ++ [")"%char]) A = Ok (bE && bF) /\
+    satisfies T0 ("("%char :: E ++ s2l ") OR (" ++ F ++ [")"%char]) A = Ok (bE || bF).
+Proof.
+  intros HE HF HA HFA. destruct (parse_conj T0 HT0 E F tE tF HE HF) as [Hand Hor].
+  eexists. eexists.
+  rewrite (satisfies_closed T0 HT0 Hnr0 E tE A HE HA HFA), (satisfies_closed T0 HT0 Hnr0 F tF A HF HA HFA).
+  rewrite (satisfies_closed T0 HT0 Hnr0 _ _ A Hand HA HFA), (satisfies_closed T0 HT0 Hnr0 _ _ A Hor HA HFA).
+  repeat split; reflexivity.
+Qed.
+
 Example C10_example :
   parse T0 (s2l "  ((MIT))   AND (ISC OR  Zlib) ") = parse T0 (s2l "MIT AND (ISC OR Zlib)")
   /\ satisfies T0 (s2l "(MIT AND ISC) OR (MIT AND Zlib)") [s2l "Zlib"; s2l "MIT"] = satisfies T0 (s2l "MIT AND (ISC OR Zlib)") [s2l "Zlib"; s2l "MIT"].
 Proof. vm_compute. split; reflexivity. Qed.
 
 (* axioms the property theorems of this file depend on (one traversal for all of them) *)
-Definition C10_theorems := (@C10, @C10_laws, @C10_and_or, @C10_extract).
+Definition C10_theorems := (@C10, @C10_laws, @C10_and_or, @C10_extract, @C10_spaces_parentheses, @C10_decomposition).
 Redirect "assumptions/C10" Print Assumptions C10_theorems.
